@@ -73,9 +73,9 @@ def gen_case(rnd, cfg, n_blocks, p_mut, cats, deep=None, **opts):
         op["form"] = "bytes" if rnd.random() < 0.3 else "obj"
         ops.append(op)
         gen.commit(op, fees)
-        if deep is None and len(ops) >= 3 and rnd.random() < p_restart:
+        if deep is None and len(ops) >= 3 and rnd.random() < p_restart * (2.5 if op["txs"] else 1.0):    # preferably right after a block with payments
             ops.append({"label": "restart%d" % len(ops), "parent": "g", "txs": [], "miner": 0,
-                        "restart": [rnd.choice([1, 1, 2, 3, 100]), rnd.randrange(2), rnd.choice([None, None, 1, 2, 3, 4, 5])]})
+                        "restart": [rnd.choice([1, 1, 2, 3, 100]), rnd.randrange(2), rnd.choice([None, None, 1, 2, 3, 4, 4, 5, 6])]})
         if rnd.random() < p_twin:
             # the header of the block just offered, carried by an edited transaction list (same id, different content)
             ops.append({"label": op["label"] + "~", "parent": op["parent"], "twin_of": op["label"], "mut": "twin", "txs": [], "miner": op["miner"],
@@ -464,6 +464,10 @@ class Run:
                 if not verdict:
                     if tag:
                         self.stat("stricter_than_reference")
+                    elif self.stats.get("restarts"):
+                        # after a restart the code works on a state it rebuilt itself: a refusal there says something about
+                        # that state (judged by C08 and by the oracles that follow), not about the usefulness of this history
+                        self.stat("honest_rejected_after_restart")
                     else:
                         self.harness.append("honest candidate %s rejected: %r" % (op["label"], err))
                         self.stat("honest_rejected")
